@@ -208,11 +208,13 @@ Theorem C18_run_ge_means : forall cfg lib url_rel lint_lines ok D c c',
   forall f w o w1, execute_script cfg lib url_rel lint_lines f c w = (o, w1) -> o <> OFuel -> (ok = true -> o <> OOracle) ->
   exists w1', execute_script cfg lib url_rel lint_lines (2 * f + D) c' w = (o, w1') /\ same_world w1 w1'.
 Proof. intros. reflexivity. Qed.
+Print Assumptions C18_run_ge_means.
 Theorem C18_never_declines_means : forall cfg lib url_rel lint_lines e,
   C18SimR.never_declines cfg lib url_rel lint_lines e <->
   forall loc bi um w, exists f, fst (eval cfg lib url_rel lint_lines f e loc bi um w) <> OFuel /\
                                 fst (eval cfg lib url_rel lint_lines f e loc bi um w) <> OOracle.
 Proof. intros. reflexivity. Qed.
+Print Assumptions C18_never_declines_means.
 
 Theorem C18_pointless_delete : forall cfg lib url_rel lint_lines,
   c_max cfg = 0%Z -> lib_ok lib true -> C18SimR.lib_okR lib false ->
@@ -250,6 +252,16 @@ Proof.
   intros cfg lib url_rel lint_lines e H. split; [apply C18LibR.logic_only_pointless; exact H|apply C18LibR.logic_only_never_declines; exact H].
 Qed.
 Print Assumptions C18_logic_only_never_declines.
+(* ... and it is a real premise in the MODEL: `2 ** -1` is pointless, yet Model/Interp.v declines to evaluate it (a negative int power
+   is left to libm) in every world at every fuel; the script made of that statement alone ends OOracle, the edited one returns null *)
+Theorem C18_never_declines_is_a_real_premise : forall cfg lib url_rel lint_lines,
+  let e := EBin (U "**") (ENum (NInt 2)) (ENum (NInt (-1))) in
+  pointless e = true /\
+  (forall f loc bi um w, fst (eval cfg lib url_rel lint_lines f e loc bi um w) = OFuel \/
+                         fst (eval cfg lib url_rel lint_lines f e loc bi um w) = OOracle) /\
+  ~ C18SimR.never_declines cfg lib url_rel lint_lines e.
+Proof. exact C18LibR.pow_neg_declines. Qed.
+Print Assumptions C18_never_declines_is_a_real_premise.
 (* non-vacuity: a warning whose statement satisfies every premise of the converse *)
 Example C18_pointless_delete_example :
   let e := EBin (U "||") (EUn (U "!") (EVar (U "x"))) (EGroup (ENum (NInt 1))) in
